@@ -260,6 +260,23 @@ def cigar_index_options(seqs, trace, opts):
     got3 = align.write_alignment_to_cigar(three, reference_index=2, segment_index=0, **opts)
     if got3 != base:
         return f"rows (2, 0) of a 3-row alignment: {got3!r}, the two-row alignment gives {base!r} (options {opts})"
+    # a column of a multiple alignment in which both chosen rows have a gap (only a third row has a symbol there)
+    # says nothing about the pair: the conversion refuses it (ValueError) or ignores it - it never counts it as a
+    # deletion or an insertion
+    if len(tr) >= 2:
+        mid = len(tr) // 2
+        filler2 = seq.NucleotideSequence("A" * (len(tr) + 1))
+        t3 = np.stack([tr[:, 1], np.arange(len(tr)), tr[:, 0]], axis=1)
+        t3[mid:, 1] += 1
+        extra = np.array([[-1, mid, -1]])
+        with_col = align.Alignment([seqs[1], filler2, seqs[0]], np.concatenate([t3[:mid], extra, t3[mid:]]), None)
+        try:
+            got4 = align.write_alignment_to_cigar(with_col, reference_index=2, segment_index=0, **opts)
+        except ValueError:
+            got4 = None
+        if got4 is not None and got4 != base:
+            return (f"rows (2, 0) of a 3-row alignment with a column in which both are gaps: {got4!r}, without that column {base!r} "
+                    f"(options {opts}): the column was counted")
     return None
 
 
